@@ -108,6 +108,8 @@ class Sched:
         self.reader_count = 0
         self.queue_hook = None
         self.max_virtual = 4 * 3600 * US
+        self.hot_re = None
+        self.hot_budget = 0
 
     # ---- trace
     def emit(self, kind, **kw):
@@ -419,14 +421,25 @@ TRACE_FILES: tuple = ()
 def _make_tracer():
     def local(frame, event, arg):
         s = S
-        if event == "line" and s is not None and not s.finished and s.preempt_budget > 0 and s.chooser.rng.random() < s.preempt_prob:
-            s.preempt_budget -= 1
-            s.emit("preempt", fn=frame.f_code.co_name, line=frame.f_lineno)
-            s.yield_("preempt")
+        if event in ("line", "opcode") and s is not None and not s.finished:
+            if event == "opcode" and not (s.hot_re is not None and s.hot_budget > 0):
+                return local
+            if s.hot_re is not None and s.hot_budget > 0 and s.hot_re.search(frame.f_code.co_name) and s.chooser.rng.random() < (0.5 if event == "line" else 0.12):
+                # targeted preemption inside the functions a check is interested in (e.g. callback registration)
+                s.hot_budget -= 1
+                s.emit("preempt", fn=frame.f_code.co_name, line=frame.f_lineno, hot=True)
+                s.yield_("preempt")
+            elif event == "line" and s.preempt_budget > 0 and s.chooser.rng.random() < s.preempt_prob:
+                s.preempt_budget -= 1
+                s.emit("preempt", fn=frame.f_code.co_name, line=frame.f_lineno)
+                s.yield_("preempt")
         return local
 
     def glob(frame, event, arg):
         if frame.f_code.co_filename in TRACE_FILES:
+            s = S
+            if s is not None and s.hot_re is not None and s.hot_budget > 0 and s.hot_re.search(frame.f_code.co_name):
+                frame.f_trace_opcodes = True      # inside the functions of interest a thread switch is possible between any two bytecodes
             return local
         return None
 
@@ -461,7 +474,7 @@ class VThread(real_threading.Thread):
         def wrapped():
             rec.sem.acquire()
             s.by_ident[_thread.get_ident()] = rec
-            if s.preempt_budget > 0 and TRACE_FILES:
+            if (s.preempt_budget > 0 or s.hot_budget > 0) and TRACE_FILES:
                 sys.settrace(_make_tracer())
             try:
                 run()
@@ -570,7 +583,9 @@ def _mk_queue():
 
 
 def _vsleep(d):
-    S.block(lambda: False, S.now + us(max(0, d)), "sleep")
+    if d < 0:
+        raise ValueError("sleep length must be non-negative")        # as time.sleep does
+    S.block(lambda: False, S.now + us(d), "sleep")
 
 
 def _mk_time():
@@ -755,7 +770,7 @@ class Run:
         self.preempts = 0
 
 
-def run_scenario(scenario, seed=0, prefix=None, mode="random", preempt=0, preempt_prob=0.02, open_hook=None, wall_timeout=120):
+def run_scenario(scenario, seed=0, prefix=None, mode="random", preempt=0, preempt_prob=0.02, open_hook=None, wall_timeout=120, hot=None, hot_budget=0):
     """scenario(ctxobj) is called in managed thread 'U0'; ctxobj offers .spawn(name, fn), .sleep(s), .emit(...), .now.
     `open_hook(url) -> VSerial or raises` decides what serial_for_url returns."""
     global S
@@ -767,6 +782,10 @@ def run_scenario(scenario, seed=0, prefix=None, mode="random", preempt=0, preemp
     ch = Chooser(seed, prefix, mode)
     s = Sched(ch, preempt_budget=preempt, preempt_prob=preempt_prob)
     s.queue_hook = None
+    if hot:
+        import re as _re
+        s.hot_re = _re.compile(hot)
+        s.hot_budget = hot_budget
     S = s
 
     def serial_for_url(url, *a, **kw):
@@ -821,7 +840,7 @@ def run_scenario(scenario, seed=0, prefix=None, mode="random", preempt=0, preemp
     def wrapped():
         rec.sem.acquire()
         s.by_ident[_thread.get_ident()] = rec
-        if s.preempt_budget > 0 and TRACE_FILES:
+        if (s.preempt_budget > 0 or s.hot_budget > 0) and TRACE_FILES:
             sys.settrace(_make_tracer())
         try:
             main()
